@@ -228,7 +228,8 @@ def rule_r3(chk):
     m = chk.repo.mod(FRD)
     f = m.func("_generate_period_system")
     chk.saw(m, "_generate_period_system")
-    for inst in ({"nxi": 5, "nv": 2, "ny": 3, "nu": 7, "nw": 11}, {"nxi": 7, "nv": 3, "ny": 2, "nu": 5, "nw": 13}):
+    for inst in ({"nxi": 5, "nv": 2, "ny": 3, "nu": 7, "nw": 11}, {"nxi": 7, "nv": 3, "ny": 2, "nu": 5, "nw": 13}) + \
+            (({"nxi": 11, "nv": 13, "ny": 17, "nu": 2, "nw": 3}, {"nxi": 2, "nv": 11, "ny": 13, "nu": 17, "nw": 19}) if chk.tier == "thorough" else ()):
         nxi, nv, ny, nu, nw = inst["nxi"], inst["nv"], inst["ny"], inst["nu"], inst["nw"]
         sh = dim.Shapes(env={"T": (nxi, nxi), "P": (nxi, nu), "K": (nxi,), "Z": (ny, nxi), "R": (nxi, nv), "v_impact": (nxi,),
                              "num_xi": dim.Int(nxi), "num_y": dim.Int(ny), "num_v_endogenized": dim.Int(nv), "solution.num_w": dim.Int(nw)})
